@@ -111,4 +111,14 @@ pub fn c04(rep: &mut Report, tier: &str, seed: u64) {
         run_raw(rep, cfg, &caps, seed);
         rep.required.push((name, "ignored_sequences_checked".into()));
     }
+    // "depends only on the byte sequence": two instances driven alternately, every interleaving (E6)
+    if REPLAY.get().is_none() {
+        let quick = tier == "quick";
+        let bytes: Vec<u8> = vec![b'a', b'[', b'A', 0x0D, 0x0A, 0x1B, 0x80, 0x8F, 0x90, 0xA0, 0xBF, 0xC3, 0xD1, 0xE0, 0xE1, 0xED, 0xF0, 0xF1, 0xF4];
+        rep.enumerations.push(crate::e6::dec_interleavings("C04", &bytes, if quick { 4 } else { 5 }));
+        let events = vec![ch('a'), ch('é'), ch('𝄞'), ch(' '), ch('"'), k(Key::Bs), k(Key::Left), k(Key::Up), k(Key::Tab), k(Key::Lf), k(Key::Cr), wr("x")];
+        rep.enumerations.push(crate::e6::cli_interleavings::<crate::cmds::Cmd4>("C04", "derived enum Cmd4", 4, 6, &events, if quick { 3 } else { 4 }));
+        let events = vec![ch('a'), ch('é'), ch(' '), k(Key::Bs), k(Key::Left), k(Key::Up), k(Key::Lf), k(Key::Cr)];
+        rep.enumerations.push(crate::e6::cli_interleavings::<embedded_cli::command::RawCommand<'static>>("C04", "RawCommand", 3, 4, &events, if quick { 4 } else { 5 }));
+    }
 }
